@@ -646,8 +646,9 @@ func BubbleGoroutines() []string {
 		if !strings.Contains(head, "synctest bubble") {
 			continue
 		}
-		if strings.Contains(head, "[running") {
-			continue
+		if strings.Contains(head, "[running") || strings.Contains(blk, "kernel.BubbleGoroutines(") ||
+			strings.Contains(head, "[synctest.Run") || strings.Contains(blk, "testing/synctest.testingSynctestTest(") {
+			continue // the caller itself, and the goroutine that waits for the bubble
 		}
 		out = append(out, blk)
 	}
